@@ -24,6 +24,7 @@ import WpModel.Lemmas.InlinePreferred
 import WpModel.Lemmas.LineFloats
 import WpModel.Lemmas.LineFloatsInline
 import WpModel.Lemmas.InlineNoWrap
+import WpModel.Lemmas.InlineSource
 
 namespace Wp.C09
 open Wp Wp.Py Wp.Pango Wp.LB Wp.C09L
@@ -646,11 +647,19 @@ paragraph of nested inline boxes is followed by another line, the character just
 point — found by following the `resume_at` path down the box tree — is a preserved line break.  For
 every nesting, spacing, width and text; `no_wrap_breaks_only_at_newline` is the same statement for one
 text box.  (Ingredients: no opportunity between two children, `no_rebreak_without_wrap`, and the dead
-"put the child on the next line" branch.) -/
-theorem nested_no_wrap_breaks_only_at_newline (p : IR.Para) (hw : p.st.ws.textWrap = false) (skip : Option IR.Skip)
+"put the child on the next line" branch.)
+
+Partial: the hypothesis `hu` says that no inline box carries `trailing_collapsible_space` (no inline box
+ends with a text box that white-space collapsing emptied, `aaa <b> </b>bbb`).  Without it the statement
+is false of the code under `nowrap`: after such a box `last_letter is True` and the
+`white_space in ('pre', 'nowrap')` test — an `elif` — is skipped, the collapsed space becomes a break
+opportunity (`Witness.C09.nowrap_breaks_after_collapsed_space`, finding
+nowrap-breaks-after-collapsed-space).  Under `pre` nothing collapses, so `hu` always holds there. -/
+theorem nested_no_wrap_breaks_only_at_newline_partial (p : IR.Para) (hw : p.st.ws.textWrap = false)
+    (hu : LFIL.unflaggedL p.kids = true) (skip : Option IR.Skip)
     (y : Rat) (first : Bool) (l : IR.OutLine) (h : IR.nextLine p skip y first = .ok (some l)) (r : IR.Skip)
     (hr : l.resume = some r) : LFIL.charBefore (.box 0 0 false p.kids) r = some '\n' :=
-  LFIL.nextLine_no_wrap p hw skip y first l h r hr
+  LFIL.nextLine_no_wrap p hw hu skip y first l h r hr
 
 /-- `<span>aaa bbb\n<b>ccc ddd</b></span>` under `pre` in 40px: two lines `aaa bbb` (70 wide, overflowing:
 no break at the space) and `ccc ddd`; the first resume point is `{0: {1: None}}`... the offset after the
@@ -660,6 +669,8 @@ def prePara : IR.Para :=
     kids := [.box 0 0 false [.text "aaa bbb\n".toList, .box 0 0 false [.text "ccc ddd".toList]]]
     lineHeight := 10, cbx := 0, width := 40, indent := 0
     align := { alignAll := .start, alignLast := none, ws := .pre, rtl := false }, y := 0 }
+
+example : LFIL.unflaggedL prePara.kids = true := by decide
 
 example : (IR.nextLine prePara none 0 true).toOption.map
     (fun o => o.map (fun l => (l.w, l.resume.map (fun r => LFIL.charBefore (.box 0 0 false prePara.kids) r)))) =
@@ -689,5 +700,52 @@ example : (IR.paragraph { emPara with
       align := { alignAll := .start, alignLast := some .«end», ws := .preLine, rtl := false },
       kids := [.text "a\nbb cc".toList, .box 0 0 false [.text "ddd".toList], .text " ee".toList] }).toOption.map
     (fun ls => ls.map (fun l => (l.x, l.w))) = some [(60, 10), (0, 20), (0, 50), (50, 20)] := by decide +kernel
+
+/-! ### from the source text to the line (`Model/InlineSource`) -/
+
+/-- **no emptied text box reaches the line**: whatever the source (runs of spaces, newlines,
+white-space-only elements at any depth) and the `white-space` value, every text box among the children
+of the line box built by `process_whitespace` + `inline_in_block` has text — `split_text_box` is never
+given an empty text by the box tree. -/
+theorem source_line_has_no_empty_text (ws : WS) (kids : List IS.Src) : IS.noEmptyTextL (IS.lineKids ws kids) = true :=
+  IS.lineKids_noEmpty ws kids
+
+/-- **a box left without children keeps the collapsed-space flag**: an inline box whose only child is a
+text box emptied by white-space collapsing (`leading_collapsible_space` set) is flagged
+`trailing_collapsible_space`, for every spacing — the break opportunity of `aaa <b> </b>bbb`
+(seed C09-8 records the flag only `if children`). -/
+theorem emptied_box_keeps_flag (ls rs : Rat) (deco lcs : Bool) :
+    IS.iibBox (.box ls rs deco [.text [] lcs]) = if lcs then .flagged (.box ls rs deco []) else .box ls rs deco [] :=
+  IS.emptied_box_keeps_flag ls rs deco lcs
+
+/-- the source `aaa <b> </b>bbb` under `white-space: normal`: the space of `<b>` collapses with the one
+before it, the emptied text box is removed and the empty `<b>` carries `trailing_collapsible_space`
+(`^`) — the break opportunity `split_inline_box` uses (seed C09-8 loses the flag on boxes left without
+children); in the nested case the flag sits on the inner element, the outer one passes `last_letter is True` on -/
+example : IS.renderL (IS.lineKids .normal [.text "aaa ".toList, .box 0 0 false [.text " ".toList], .text "bbb".toList]) =
+    "\"aaa \"^[]\"bbb\"".toList := by decide +kernel
+
+/-- … nested (`aaa <b> <u> </u></b>bbb`), and not flagged when no space precedes (`aaa<b> </b>bbb`) -/
+example : IS.renderL (IS.lineKids .normal [.text "aaa ".toList,
+      .box 0 0 false [.text " ".toList, .box 0 0 false [.text " ".toList]], .text "bbb".toList]) =
+      "\"aaa \"[^[]]\"bbb\"".toList ∧
+    IS.renderL (IS.lineKids .normal [.text "aaa".toList, .box 0 0 false [.text " ".toList], .text "bbb".toList]) =
+      "\"aaa\"[\" \"]\"bbb\"".toList := by decide +kernel
+
+/-- the collapsed space is a break opportunity: `aaa <b> </b>bbb` in 50px is broken after `aaa ` -/
+def collapsedPara : IR.Para :=
+  { st := { ws := .normal, wb := .normal, ow := .normal, fs := 10 }
+    kids := IS.lineKids .normal [.text "aaa ".toList, .box 0 0 false [.text " ".toList], .text "bbb".toList]
+    lineHeight := 10, cbx := 0, width := 50, indent := 0
+    align := { alignAll := .start, alignLast := none, ws := .normal, rtl := false }, y := 0 }
+
+example : (IR.paragraph collapsedPara).toOption.map (fun ls => ls.map (·.w)) = some [40, 30] := by decide +kernel
+
+/-- without collapsing nothing is emptied or flagged: under `pre` the same source keeps its three spaces,
+and `nested_no_wrap_breaks_only_at_newline_partial` applies -/
+example : IS.renderL (IS.lineKids .pre [.text "aaa ".toList, .box 0 0 false [.text " ".toList], .text "bbb".toList]) =
+      "\"aaa \"[\" \"]\"bbb\"".toList ∧
+    LFIL.unflaggedL (IS.lineKids .pre [.text "aaa ".toList, .box 0 0 false [.text " ".toList], .text "bbb".toList]) = true := by
+  decide +kernel
 
 end Wp.C09
